@@ -707,4 +707,213 @@ theorem openAt_plain_name (fs : FS) (cwd : RPath) (dest name : Str) (d : RPath)
     | dir => exact absurd hk hnd
     | file => simp
 
+
+/-! ### histories -/
+
+/-- removing a FILE does not disturb any successful walk (walks only pass through directories) -/
+theorem walk_set_file {fs : FS} {g : RPath} (hg : fs g = some .file) : ∀ (cs : List Comp) (c p : RPath),
+    walk fs c cs = .ok p → walk (fs.set g none) c cs = .ok p
+  | [], c, p, h => by simpa [walk] using h
+  | .root :: r, c, p, h => by simp only [walk] at h ⊢; exact walk_set_file hg r [] p h
+  | .cur :: r, c, p, h => by simp only [walk] at h ⊢; exact walk_set_file hg r c p h
+  | .parent :: r, c, p, h => by simp only [walk] at h ⊢; exact walk_set_file hg r c.dropLast p h
+  | .normal s :: r, c, p, h => by
+    simp only [walk] at h ⊢
+    cases hk : fs (c ++ [s]) with
+    | none => simp [hk] at h
+    | some k =>
+      cases k with
+      | file => simp [hk] at h
+      | dir =>
+        simp only [hk] at h
+        have hne : c ++ [s] ≠ g := by intro he; rw [he, hg] at hk; cases hk
+        have : (fs.set g none) (c ++ [s]) = some .dir := by simp [FS.set, hne, hk]
+        rw [this]
+        exact walk_set_file hg r (c ++ [s]) p h
+
+/-- all differences between two filesystems lie strictly below `d` -/
+def Diff (d : RPath) (a b : FS) : Prop := ∀ q, b q ≠ a q → Under d q
+
+theorem Diff.refl (d : RPath) (a : FS) : Diff d a a := fun _ h => absurd rfl h
+
+theorem Diff.trans {d : RPath} {a b c : FS} (h1 : Diff d a b) (h2 : Diff d b c) : Diff d a c := by
+  intro q hq
+  by_cases hb : b q = a q
+  · exact h2 q (by rw [hb]; exact hq)
+  · exact h1 q hb
+
+/-- the stored destination of a writer is `dest.join(rel)` for a relative path that passed the check -/
+def WOk (dest : Str) (w : Writer) : Prop :=
+  ∀ dst, w.destination = some dst → ∃ rel, relOk rel = true ∧ dst = join dest rel
+
+/-- `remove_file(destination)` in ANY later filesystem in which `dest` is still the same directory: it can only
+    remove the file `resolve(dest)/<names>`, strictly below `dest`, and leaves `dest` resolvable -/
+theorem unlink_conf (fs : FS) (cwd : RPath) (dest rel : Str) (d : RPath)
+    (hw : walk fs cwd (components dest) = .ok d) (hdne : dest ≠ []) (hrel : relOk rel = true)
+    (fs' : FS) (g : RPath) (h : unlink fs cwd (join dest rel) = .ok (fs', g)) :
+    Under d g ∧ g = resolveC d (components rel) ∧ Diff d fs fs' ∧ walk fs' cwd (components dest) = .ok d := by
+  obtain ⟨_, _, l, hl, hcr, _⟩ := relOk_spec rel hrel
+  have hcj : components (join dest rel) = components dest ++ l.map .normal := by
+    rw [components_join dest rel hdne hrel, hcr]
+  rcases snoc_cases l with h0 | ⟨l', s, hls⟩
+  · exact absurd h0 hl
+  subst hls
+  unfold unlink at h
+  cases hlp : lookupParent fs cwd (join dest rel) with
+  | error e => simp [hlp] at h
+  | ok f =>
+    obtain ⟨hf, _⟩ := lookupParent_below fs cwd _ _ d l' s hcj hw f hlp
+    simp only [hlp] at h
+    cases hk : fs f with
+    | none => simp [hk] at h
+    | some k =>
+      cases k with
+      | dir => simp [hk] at h
+      | file =>
+        simp only [hk] at h
+        injection h with h
+        injection h with h1 h2
+        subst h2
+        have hu : Under d f := ⟨l' ++ [s], by simp, hf⟩
+        refine ⟨hu, by rw [hcr, resolveC_normals]; exact hf, ?_, ?_⟩
+        · intro q hq
+          rw [← h1] at hq
+          by_cases hqf : q = f
+          · rw [hqf]; exact hu
+          · simp [FS.set, hqf] at hq
+        · rw [← h1]; exact walk_set_file hk _ _ _ hw
+
+/-- one call on one writer, whatever the call and whatever happened before -/
+theorem callWriter_conf (fs : FS) (cwd : RPath) (dest : Str) (d : RPath) (w : Writer) (c : Call)
+    (hw : walk fs cwd (components dest) = .ok d) (hdne : dest ≠ []) (hwok : WOk dest w) :
+    walk (callWriter fs cwd dest w c).1 cwd (components dest) = .ok d ∧
+    Diff d fs (callWriter fs cwd dest w c).1 ∧
+    (∀ e ∈ (callWriter fs cwd dest w c).2.2.1, Under d e.path) ∧
+    WOk dest (callWriter fs cwd dest w c).2.1 ∧
+    (callWriter fs cwd dest w c).2.1.loc = w.loc ∧ (callWriter fs cwd dest w c).2.1.ans = w.ans := by
+  have hnone : ∀ w' : Writer, w'.destination = none → WOk dest w' := by
+    intro w' h dst hd; rw [h] at hd; cases hd
+  have herr : ∀ c', (c' = Call.error ∨ c' = Call.interrupted) →
+      walk (callWriter fs cwd dest w c').1 cwd (components dest) = .ok d ∧
+      Diff d fs (callWriter fs cwd dest w c').1 ∧
+      (∀ e ∈ (callWriter fs cwd dest w c').2.2.1, Under d e.path) ∧
+      WOk dest (callWriter fs cwd dest w c').2.1 ∧
+      (callWriter fs cwd dest w c').2.1.loc = w.loc ∧ (callWriter fs cwd dest w c').2.1.ans = w.ans := by
+    intro c' hc'
+    have hcw : callWriter fs cwd dest w c' =
+        (match w.destination with
+          | none => (fs, w, [], true)
+          | some dst =>
+            match unlink fs cwd dst with
+            | .ok (fs', g) => (fs', { w with destination := none }, [.remove g], true)
+            | .error _ => (fs, { w with destination := none }, [], true)) := by
+      rcases hc' with h | h <;> subst h <;> rfl
+    rw [hcw]
+    cases hd : w.destination with
+    | none => exact ⟨hw, Diff.refl d fs, by simp, hwok, rfl, rfl⟩
+    | some dst =>
+      obtain ⟨rel, hrel, hdst⟩ := hwok dst hd
+      simp only []
+      cases hu : unlink fs cwd dst with
+      | error e => exact ⟨hw, Diff.refl d fs, by simp, hnone _ rfl, rfl, rfl⟩
+      | ok v =>
+        obtain ⟨fs', g⟩ := v
+        rw [hdst] at hu
+        obtain ⟨hug, _, hdiff, hw'⟩ := unlink_conf fs cwd dest rel d hw hdne hrel fs' g hu
+        refine ⟨hw', hdiff, ?_, hnone _ rfl, rfl, rfl⟩
+        intro e he
+        simp only [List.mem_singleton] at he
+        rw [he]; exact hug
+  cases c with
+  | error => exact herr _ (Or.inl rfl)
+  | interrupted => exact herr _ (Or.inr rfl)
+  | write => exact ⟨hw, Diff.refl d fs, by simp [callWriter], hwok, rfl, rfl⟩
+  | complete => exact ⟨hw, Diff.refl d fs, by simp [callWriter], hnone _ rfl, rfl, rfl⟩
+  | «open» =>
+    simp only [callWriter]
+    cases hm : mapLoc w.loc w.ans with
+    | none =>
+      have ho : PathMap.open fs cwd dest w.loc w.ans = ⟨fs, [], none⟩ := by simp only [PathMap.open, hm]
+      rw [ho]
+      exact ⟨hw, Diff.refl d fs, by simp [openEffects], hwok, rfl, rfl⟩
+    | some rel =>
+      have ho : PathMap.open fs cwd dest w.loc w.ans = openAt fs cwd dest rel := by simp only [PathMap.open, hm]
+      have hrel : relOk rel = true := by
+        unfold mapLoc at hm
+        split at hm
+        · cases hm
+        · split at hm
+          · injection hm with hm; rw [← hm]; assumption
+          · cases hm
+      have spec := openAt_conf fs cwd dest rel d hw hdne hrel
+      rw [ho]
+      have hw' := walk_mono spec.ext.2 _ _ _ hw
+      cases hop : (openAt fs cwd dest rel).opened with
+      | none =>
+        refine ⟨hw', spec.ext.1, ?_, hwok, rfl, rfl⟩
+        intro e he
+        simp only [openEffects, hop, List.append_nil, List.mem_map] at he
+        obtain ⟨p, hp, hpe⟩ := he
+        rw [← hpe]; exact spec.dirs p hp
+      | some v =>
+        obtain ⟨dst, f, fresh⟩ := v
+        obtain ⟨hdst, hu, _⟩ := spec.opened dst f fresh hop
+        refine ⟨hw', spec.ext.1, ?_, ?_, rfl, rfl⟩
+        · intro e he
+          simp only [openEffects, hop, List.mem_append, List.mem_map, List.mem_singleton] at he
+          rcases he with ⟨p, hp, hpe⟩ | he
+          · rw [← hpe]; exact spec.dirs p hp
+          · rw [he]; cases fresh <;> exact hu
+        · intro dst' hd'
+          simp only [Option.some.injEq] at hd'
+          exact ⟨rel, hrel, by rw [← hd', hdst]⟩
+
+
+/-- invariant of a history: `dest` still resolves to the same directory, every writer's stored destination is
+    `dest.join(<checked relative path>)` -/
+def SysInv (cwd : RPath) (dest : Str) (d : RPath) (s : Sys) : Prop :=
+  walk s.fs cwd (components dest) = .ok d ∧ ∀ w ∈ s.writers, WOk dest w
+
+theorem hstep_conf (cwd : RPath) (dest : Str) (d : RPath) (hdne : dest ≠ []) (s : Sys) (op : HOp)
+    (hi : SysInv cwd dest d s) :
+    SysInv cwd dest d (hstep cwd dest s op).1 ∧ Diff d s.fs (hstep cwd dest s op).1.fs ∧
+    (∀ e ∈ (hstep cwd dest s op).2, Under d e.path) := by
+  obtain ⟨hw, hws⟩ := hi
+  cases op with
+  | new loc ans =>
+    refine ⟨⟨hw, ?_⟩, Diff.refl d _, by simp [hstep]⟩
+    intro w hmem
+    simp only [hstep, List.mem_append, List.mem_singleton] at hmem
+    rcases hmem with h | h
+    · exact hws w h
+    · rw [h]; intro dst hd; cases hd
+  | call i c =>
+    simp only [hstep]
+    cases hg : s.writers[i]? with
+    | none => exact ⟨⟨hw, hws⟩, Diff.refl d _, by simp⟩
+    | some w =>
+      have hmem : w ∈ s.writers := List.mem_of_getElem? hg
+      obtain ⟨h1, h2, h3, h4, _⟩ := callWriter_conf s.fs cwd dest d w c hw hdne (hws w hmem)
+      refine ⟨⟨h1, ?_⟩, h2, h3⟩
+      intro w' hw'
+      rcases List.mem_or_eq_of_mem_set hw' with h | h
+      · exact hws w' h
+      · rw [h]; exact h4
+
+theorem hrun_conf (cwd : RPath) (dest : Str) (d : RPath) (hdne : dest ≠ []) :
+    ∀ (ops : List HOp) (s : Sys), SysInv cwd dest d s →
+      SysInv cwd dest d (hrun cwd dest s ops).1 ∧ Diff d s.fs (hrun cwd dest s ops).1.fs ∧
+      (∀ e ∈ (hrun cwd dest s ops).2, Under d e.path)
+  | [], s, hi => ⟨hi, Diff.refl d _, by simp [hrun]⟩
+  | op :: rest, s, hi => by
+    obtain ⟨h1, h2, h3⟩ := hstep_conf cwd dest d hdne s op hi
+    obtain ⟨g1, g2, g3⟩ := hrun_conf cwd dest d hdne rest _ h1
+    simp only [hrun]
+    refine ⟨g1, h2.trans g2, ?_⟩
+    intro e he
+    simp only [List.mem_append] at he
+    rcases he with he | he
+    · exact h3 e he
+    · exact g3 e he
+
 end Flute.Lemmas.PathMap
